@@ -946,7 +946,9 @@ def run_c02(ctx: kernel.Ctx, case: Dict[str, Any]) -> None:
                         dq = {p: _num_delta(v) for p, v in deltas[k].items()}
                         if not dp:
                             continue  # the policy itself was stopped by a bound: nothing to follow
-                        bad_paths = [p for p in dp if dq.get(p) != dp[p] and not _bound_blocked(before_arch[j][k], p)]
+                        # a path the policy changed must change identically in the other network, or not at all because the other
+                        # network sits on one of its declared bounds there (a *different* change is never a bound effect)
+                        bad_paths = [p for p in dp if dq.get(p) != dp[p] and not (p not in dq and _bound_blocked(before_arch[j][k], p))]
                         extra = [p for p in dq if p not in dp]
                         if bad_paths or extra:
                             ctx.report("C02/critic_not_following", f"agent {j} after {mut!r}: policy {kp} changed {deltas[kp]}, but {k} changed {deltas[k]} "
@@ -1089,7 +1091,9 @@ def restore(w: World, ag, data: bytes, path: str, case):
     if path == "load":
         return type(ag).load(io.BytesIO(data))
     hp = A.hp_config(cfg) if cfg["hp"] != "none" else None
-    fresh = A.make_agent(cfg, index=77, hp=hp, seed=kernel.derive(case["cfg_seed"], "fresh"))
+    # "into an existing one": an agent of the same kind that has its own, different, hyperparameters and weights
+    other = dict(cfg, lr=cfg["lr"] * 3.0, batch_size=cfg["batch_size"] + 1)
+    fresh = A.make_agent(other, index=77, hp=hp, seed=kernel.derive(case["cfg_seed"], "fresh"))
     fresh.load_checkpoint(io.BytesIO(data))
     return fresh
 
